@@ -10,7 +10,6 @@ package checks
 
 import (
 	"fmt"
-	"regexp"
 	"strconv"
 	"strings"
 	"unicode/utf8"
@@ -79,9 +78,8 @@ func (m *c24Model) escape(s string, i int, mode int) (last int, stop bool) {
 		return i, false
 	}
 	c := s[i+1]
-	simple := map[byte]byte{'a': '\a', 'b': '\b', 'e': 0x1b, 'E': 0x1b, 'f': '\f', 'n': '\n', 'r': '\r', 't': '\t', 'v': '\v', '\\': '\\'}
-	if b, ok := simple[c]; ok {
-		m.out = append(m.out, b)
+	if k := strings.IndexByte("abeEfnrtv\\", c); k >= 0 {
+		m.out = append(m.out, "\a\b\x1b\x1b\f\n\r\t\v\\"[k])
 		return i + 1, false
 	}
 	switch {
@@ -165,7 +163,19 @@ func (m *c24Model) expandEsc(s string, mode int) (stop bool) {
 	return false
 }
 
-var c24InterpPre = regexp.MustCompile(`^[-+ ]?[0-9]*$`)
+// c24InterpPre reports whether the text between % and the conversion fits the
+// interpreter's grammar: at most one of + - space, then digits.
+func c24InterpPre(pre string) bool {
+	if pre != "" && strings.IndexByte("-+ ", pre[0]) >= 0 {
+		pre = pre[1:]
+	}
+	for i := 0; i < len(pre); i++ {
+		if pre[i] < '0' || pre[i] > '9' {
+			return false
+		}
+	}
+	return true
+}
 
 // cNumber parses arg the way bash's getintmax/getuintmax do. bits is the
 // two's complement value.
@@ -299,7 +309,7 @@ func (m *c24Model) round(format string, args *[]string) int {
 		phase := 0
 		for j < len(format) {
 			ch := format[j]
-			if ch == '\\' && m.has(c24qEscInSpec) && c24InterpPre.MatchString(pre) {
+			if ch == '\\' && m.has(c24qEscInSpec) && c24InterpPre(pre) {
 				last, _ := m.escape(format, j, c24ModeFormat)
 				if last == j && j+1 < len(format) {
 					// the interpreter writes an unknown escape out whole
@@ -332,7 +342,7 @@ func (m *c24Model) round(format string, args *[]string) int {
 			return 1 // missing format character
 		}
 		conv := format[j]
-		interpPre := c24InterpPre.MatchString(pre)
+		interpPre := c24InterpPre(pre)
 		if conv == '%' && m.has(c24qPctWidthPct) && interpPre {
 			m.out = append(m.out, '%')
 			i = j
